@@ -1,15 +1,270 @@
 (** C02 -- proofs about the format specification (FmtSpec.v) and the writers' model (FmtModel.v). *)
-From Coq Require Import ZArith List Bool Lia.
-Require Import H4.FmtSpec.
+From Coq Require Import ZArith List Bool Lia String Znumtheory.
+Require Import H4.FmtSpec H4.FmtModel H4.gen.Gen_Fmt.
 Import ListNotations.
 Local Open Scope Z_scope.
 
-Lemma walk_length : forall fuel img off bl, walk fuel img off = Some bl -> (length bl <= fuel)%nat.
+(* ================================================================================================== *)
+(** * 1. The published constants are the constants of the current sources *)
+
+Lemma consts_agree :
+  HDFMAGIC = magic /\ MAGICLEN = 4 /\ DD_SZ = dd_size /\ NDDS_SZ + OFFSET_SZ = blkhdr_size /\
+  INVALID_OFFSET = -1 /\ INVALID_LENGTH = -1 /\
+  DFTAG_NULL = tag_null /\ DFTAG_LINKED = tag_linked /\ DFTAG_COMPRESSED = tag_compressed /\
+  DFTAG_CHUNK = tag_chunk /\ DFTAG_VH = tag_vh /\ DFTAG_VS = tag_vs /\ DFTAG_VG = tag_vg /\
+  SPECIAL_LINKED = sp_linked /\ SPECIAL_EXT = sp_ext /\ SPECIAL_COMP = sp_comp /\ SPECIAL_CHUNKED = sp_chunked /\
+  [COMP_CODE_NONE; COMP_CODE_RLE; COMP_CODE_NBIT; COMP_CODE_SKPHUFF; COMP_CODE_DEFLATE; COMP_CODE_SZIP] = [0; 1; 2; 3; 4; 5] /\
+  VSET_NEW_VERSION = 4 /\ VS_ATTR_SET = 1 /\ VG_ATTR_SET = 1 /\ COMP_HEADER_VERSION = 0 /\ _HDF_CHK_HDR_VER = 0 /\
+  RUN_MASK = 128 /\ COUNT_MASK = 127 /\ RLE_MIN_RUN = 3 /\ RLE_MIN_MIX = 1.
+Proof. repeat split; reflexivity. Qed.
+
+(** BASETAG / SPECIALTAG / MKSPECIALTAG of hfile_priv.h against the specification's [base_tag] / [is_special],
+    for every 16-bit tag (complete sweep of the finite domain) *)
+Definition tag_macros_ok (t : Z) : bool :=
+  (BASETAG t =? base_tag t) && Bool.eqb (negb (SPECIALTAG t =? 0)) (is_special t) &&
+  (if (t <? 16384) && negb (t =? 0) then (base_tag (MKSPECIALTAG t) =? t) && is_special (MKSPECIALTAG t) else true).
+
+Lemma zrange_In : forall n t, 0 <= t < n -> In t (zrange n).
 Proof.
-  induction fuel; simpl; intros img off bl H; [discriminate|].
-  destruct (p_block img off) as [b|]; [|discriminate].
-  destruct (blk_next b =? 0).
-  - inversion H; subst; simpl; lia.
-  - destruct (walk fuel img (blk_next b)) as [rest|] eqn:E; [|discriminate].
-    inversion H; subst; simpl. apply IHfuel in E. lia.
+  intros n t H. unfold zrange. apply in_map_iff. exists (Z.to_nat t). split; [lia|].
+  apply in_seq. lia.
+Qed.
+
+Lemma tag_macros_sweep : forallb tag_macros_ok (zrange 65536) = true.
+Proof. vm_compute. reflexivity. Qed.
+
+Lemma tag_macros_agree : forall t, 0 <= t < 65536 ->
+  BASETAG t = base_tag t /\ (SPECIALTAG t <> 0 <-> is_special t = true) /\
+  (0 < t < 16384 -> base_tag (MKSPECIALTAG t) = t /\ is_special (MKSPECIALTAG t) = true).
+Proof.
+  intros t Ht. pose proof (proj1 (forallb_forall _ _) tag_macros_sweep t (zrange_In _ _ Ht)) as H.
+  unfold tag_macros_ok in H. apply andb_true_iff in H. destruct H as [H H3].
+  apply andb_true_iff in H. destruct H as [H1 H2].
+  apply Z.eqb_eq in H1. apply Bool.eqb_prop in H2. split; [exact H1|]. split.
+  - rewrite <- H2. destruct (SPECIALTAG t =? 0) eqn:E; simpl.
+    + apply Z.eqb_eq in E. split; [congruence|discriminate].
+    + apply Z.eqb_neq in E. tauto.
+  - intros Hr. assert ((t <? 16384) && negb (t =? 0) = true) as E.
+    { apply andb_true_iff. split; [apply Z.ltb_lt; lia|]. apply negb_true_iff. apply Z.eqb_neq. lia. }
+    rewrite E in H3. apply andb_true_iff in H3. destruct H3 as [A B]. apply Z.eqb_eq in A. tauto.
+Qed.
+
+(* ================================================================================================== *)
+(** * 2. The ENCODE / DECODE statement macros are big-endian two's complement *)
+
+Lemma land255 : forall x, Z.land x 255 = x mod 256.
+Proof. intro x. change 255 with (Z.ones 8). rewrite Z.land_ones by lia. reflexivity. Qed.
+
+Lemma land_shiftl_small : forall hi lo n, 0 <= n -> 0 <= lo < 2 ^ n -> Z.land (Z.shiftl hi n) lo = 0.
+Proof.
+  intros hi lo n Hn Hlo. apply Z.bits_inj'. intros k Hk.
+  rewrite Z.land_spec, Z.bits_0.
+  destruct (Z.lt_ge_cases k n).
+  - rewrite Z.shiftl_spec_low by lia. reflexivity.
+  - assert (Z.testbit lo k = false) as E.
+    { apply Z.testbit_false; [lia|]. rewrite Z.div_small; [reflexivity|].
+      split; [lia|]. apply Z.lt_le_trans with (2 ^ n); [lia|]. apply Z.pow_le_mono_r; lia. }
+    rewrite E. apply andb_false_r.
+Qed.
+
+Lemma lor_shiftl_add : forall hi lo n, 0 <= n -> 0 <= lo < 2 ^ n -> Z.lor (Z.shiftl hi n) lo = hi * 2 ^ n + lo.
+Proof.
+  intros. rewrite <- Z.lxor_lor by (apply land_shiftl_small; auto).
+  rewrite <- Z.add_nocarry_lxor by (apply land_shiftl_small; auto).
+  rewrite Z.shiftl_mul_pow2 by lia. reflexivity.
+Qed.
+
+Definition is_byte (b : Z) : Prop := 0 <= b < 256.
+Definition u16 (v : Z) : Prop := 0 <= v < 65536.
+Definition i16 (v : Z) : Prop := -32768 <= v < 32768.
+Definition u32 (v : Z) : Prop := 0 <= v < 4294967296.
+Definition i32 (v : Z) : Prop := -2147483648 <= v < 2147483648.
+
+(** shape of the four ENCODE macros, for every integer argument *)
+Lemma INT16ENCODE_shape : forall v,
+  INT16ENCODE_bytes v = [(v mod 4294967296 / 256) mod 256; (v mod 4294967296) mod 256].
+Proof.
+  intro v. unfold INT16ENCODE_bytes. rewrite !land255, Z.shiftr_div_pow2 by lia. change (2 ^ 8) with 256.
+  rewrite !Z.mod_mod by lia. reflexivity.
+Qed.
+
+Lemma UINT16ENCODE_shape : forall v,
+  UINT16ENCODE_bytes v = [(v mod 4294967296 / 256) mod 256; v mod 256].
+Proof.
+  intro v. unfold UINT16ENCODE_bytes. rewrite !land255, Z.shiftr_div_pow2 by lia. change (2 ^ 8) with 256.
+  rewrite !Z.mod_mod by lia. reflexivity.
+Qed.
+
+Lemma INT32ENCODE_shape : forall v, let u := v mod 4294967296 in
+  INT32ENCODE_bytes v = [(u / 16777216) mod 256; (u / 65536) mod 256; (u / 256) mod 256; u mod 256].
+Proof.
+  intro v. unfold INT32ENCODE_bytes. rewrite !land255, !Z.shiftr_div_pow2 by lia.
+  change (2 ^ 8) with 256. change (2 ^ 16) with 65536. change (2 ^ 24) with 16777216.
+  rewrite !Z.mod_mod by lia. reflexivity.
+Qed.
+
+Lemma UINT32ENCODE_shape : forall v,
+  UINT32ENCODE_bytes v = [(v / 16777216) mod 256; (v / 65536) mod 256; (v / 256) mod 256; v mod 256].
+Proof.
+  intro v. unfold UINT32ENCODE_bytes. rewrite !land255, !Z.shiftr_div_pow2 by lia.
+  change (2 ^ 8) with 256. change (2 ^ 16) with 65536. change (2 ^ 24) with 16777216.
+  rewrite !Z.mod_mod by lia. reflexivity.
+Qed.
+
+Lemma be16_bytes : forall u, be16 ((u / 256) mod 256) (u mod 256) = u mod 65536.
+Proof. intro u. unfold be16. change 65536 with (256 * 256). rewrite Z.rem_mul_r by lia. lia. Qed.
+
+Lemma mod_split : forall u m, 0 < m -> u mod (256 * m) = u mod 256 + 256 * ((u / 256) mod m).
+Proof. intros. apply Z.rem_mul_r; lia. Qed.
+
+Lemma be32_bytes : forall u,
+  be32 ((u / 16777216) mod 256) ((u / 65536) mod 256) ((u / 256) mod 256) (u mod 256) = u mod 4294967296.
+Proof.
+  intro u. unfold be32.
+  replace 4294967296 with (256 * 16777216) by reflexivity. rewrite (mod_split u 16777216) by lia.
+  replace (u / 256 mod 16777216) with ((u / 256) mod (256 * 65536)) by reflexivity.
+  rewrite (mod_split (u / 256) 65536) by lia.
+  replace (u / 256 / 256 mod 65536) with ((u / 256 / 256) mod (256 * 256)) by reflexivity.
+  rewrite (mod_split (u / 256 / 256) 256) by lia.
+  rewrite !Z.div_div by lia.
+  replace (256 * 256) with 65536 by reflexivity. replace (65536 * 256) with 16777216 by reflexivity.
+  lia.
+Qed.
+
+Lemma sgn16_mod : forall v, i16 v -> sgn16 (v mod 65536) = v.
+Proof.
+  intros v H. unfold i16 in H. unfold sgn16. destruct (Z.lt_ge_cases v 0).
+  - assert (v mod 65536 = v + 65536) as E by (rewrite <- (Z.mod_add v 1 65536) by lia; rewrite Z.mod_small; lia).
+    rewrite E. destruct (v + 65536 <? 32768) eqn:L; [apply Z.ltb_lt in L; lia | lia].
+  - rewrite Z.mod_small by lia. destruct (v <? 32768) eqn:L; [reflexivity | apply Z.ltb_ge in L; lia].
+Qed.
+
+Lemma sgn32_mod : forall v, i32 v -> sgn32 (v mod 4294967296) = v.
+Proof.
+  intros v H. unfold i32 in H. unfold sgn32. destruct (Z.lt_ge_cases v 0).
+  - assert (v mod 4294967296 = v + 4294967296) as E by (rewrite <- (Z.mod_add v 1 4294967296) by lia; rewrite Z.mod_small; lia).
+    rewrite E. destruct (v + 4294967296 <? 2147483648) eqn:L; [apply Z.ltb_lt in L; lia | lia].
+  - rewrite Z.mod_small by lia. destruct (v <? 2147483648) eqn:L; [reflexivity | apply Z.ltb_ge in L; lia].
+Qed.
+
+Lemma mod32_mod16 : forall a, (a mod 4294967296) mod 65536 = a mod 65536.
+Proof. intro a. symmetry. apply Znumtheory.Zmod_div_mod; try lia. exists 65536. reflexivity. Qed.
+
+(** the specification's primitive readers invert the library's ENCODE macros *)
+Lemma p_u16_enc : forall v r, u16 v -> p_u16 (UINT16ENCODE_bytes v ++ r) = Some (v, r).
+Proof.
+  intros v r H. unfold u16 in H. rewrite UINT16ENCODE_shape. simpl. f_equal. f_equal.
+  rewrite (Z.mod_small v 4294967296) by lia. rewrite be16_bytes. apply Z.mod_small. lia.
+Qed.
+
+Lemma p_i16_enc : forall v r, i16 v -> p_i16 (INT16ENCODE_bytes v ++ r) = Some (v, r).
+Proof.
+  intros v r H. rewrite INT16ENCODE_shape. simpl. f_equal. f_equal.
+  rewrite be16_bytes, mod32_mod16. apply sgn16_mod. exact H.
+Qed.
+
+(** a non-negative value written with the signed macro is read back by the unsigned reader, and vice versa *)
+Lemma p_u16_enc_i : forall v r, 0 <= v < 32768 -> p_u16 (INT16ENCODE_bytes v ++ r) = Some (v, r).
+Proof.
+  intros v r H. rewrite INT16ENCODE_shape. simpl. f_equal. f_equal.
+  rewrite be16_bytes, mod32_mod16. apply Z.mod_small. lia.
+Qed.
+
+Lemma p_i32_enc : forall v r, i32 v -> p_i32 (INT32ENCODE_bytes v ++ r) = Some (v, r).
+Proof.
+  intros v r H. rewrite INT32ENCODE_shape. simpl. f_equal. f_equal.
+  rewrite be32_bytes, Z.mod_mod by lia. apply sgn32_mod. exact H.
+Qed.
+
+Lemma p_u32_enc : forall v r, u32 v -> p_u32 (UINT32ENCODE_bytes v ++ r) = Some (v, r).
+Proof.
+  intros v r H. unfold u32 in H. rewrite UINT32ENCODE_shape. simpl. f_equal. f_equal.
+  rewrite be32_bytes. apply Z.mod_small. lia.
+Qed.
+
+Lemma enc_len_u16 : forall v, List.length (UINT16ENCODE_bytes v) = 2%nat. Proof. reflexivity. Qed.
+Lemma enc_len_i16 : forall v, List.length (INT16ENCODE_bytes v) = 2%nat. Proof. reflexivity. Qed.
+Lemma enc_len_i32 : forall v, List.length (INT32ENCODE_bytes v) = 4%nat. Proof. reflexivity. Qed.
+Lemma enc_len_u32 : forall v, List.length (UINT32ENCODE_bytes v) = 4%nat. Proof. reflexivity. Qed.
+
+(** every byte an ENCODE macro emits is a byte *)
+Lemma enc_bytes_u16 : forall v, Forall is_byte (UINT16ENCODE_bytes v).
+Proof. intro v. rewrite UINT16ENCODE_shape. repeat constructor; apply Z.mod_pos_bound; lia. Qed.
+Lemma enc_bytes_i16 : forall v, Forall is_byte (INT16ENCODE_bytes v).
+Proof. intro v. rewrite INT16ENCODE_shape. repeat constructor; apply Z.mod_pos_bound; lia. Qed.
+Lemma enc_bytes_i32 : forall v, Forall is_byte (INT32ENCODE_bytes v).
+Proof. intro v. rewrite INT32ENCODE_shape. repeat constructor; apply Z.mod_pos_bound; lia. Qed.
+Lemma enc_bytes_u32 : forall v, Forall is_byte (UINT32ENCODE_bytes v).
+Proof. intro v. rewrite UINT32ENCODE_shape. repeat constructor; apply Z.mod_pos_bound; lia. Qed.
+
+(** the library's DECODE macros compute the specification's big-endian readers (the destination's C type does
+    the final wrap: [sgn16] for an int16 variable, [sgn32] for an int32 variable) *)
+Lemma UINT16DECODE_spec : forall b0 b1, is_byte b0 -> is_byte b1 -> UINT16DECODE_val b0 b1 = be16 b0 b1.
+Proof.
+  intros b0 b1 H0 H1. unfold is_byte in *. unfold UINT16DECODE_val, be16.
+  rewrite !land255, !(Z.mod_small _ 256) by lia.
+  assert (Z.shiftl b0 8 = b0 * 256) as S by (rewrite Z.shiftl_mul_pow2 by lia; reflexivity).
+  rewrite (Z.mod_small (Z.shiftl b0 8) 65536) by lia. rewrite (Z.mod_small b1 65536) by lia.
+  rewrite lor_shiftl_add by (simpl; lia). reflexivity.
+Qed.
+
+Lemma INT16DECODE_spec : forall b0 b1, is_byte b0 -> is_byte b1 ->
+  sgn16 ((INT16DECODE_val b0 b1) mod 65536) = sgn16 (be16 b0 b1).
+Proof.
+  intros b0 b1 H0 H1. unfold is_byte in *. unfold INT16DECODE_val, be16.
+  rewrite !land255, !(Z.mod_small _ 256) by lia.
+  assert ((if Z.land b0 128 =? 0 then 0 else Z.lnot 65535) + 32768 = 32768 \/
+          (if Z.land b0 128 =? 0 then 0 else Z.lnot 65535) + 32768 = -32768) as E.
+  { destruct (Z.land b0 128 =? 0); [left | right]; reflexivity. }
+  assert (((if Z.land b0 128 =? 0 then 0 else Z.lnot 65535) + 32768) mod 65536 - 32768 = 0) as E0.
+  { destruct E as [E | E]; rewrite E; reflexivity. }
+  rewrite E0. rewrite Z.lor_0_l.
+  rewrite !(Z.mod_small (_ + 32768) 65536) by lia.
+  replace (b0 + 32768 - 32768) with b0 by lia. replace (b1 + 32768 - 32768) with b1 by lia.
+  rewrite lor_shiftl_add by (simpl; lia). change (2 ^ 8) with 256.
+  f_equal. apply Z.mod_small. lia.
+Qed.
+
+Lemma shl_mul : forall a n, 0 <= n -> Z.shiftl a n = a * 2 ^ n.
+Proof. intros. apply Z.shiftl_mul_pow2; auto. Qed.
+
+Lemma lor4_bytes : forall a b c d, is_byte a -> is_byte b -> is_byte c -> is_byte d ->
+  Z.lor (Z.lor (Z.lor (Z.shiftl a 24) (Z.shiftl b 16)) (Z.shiftl c 8)) d = be32 a b c d.
+Proof.
+  intros a b c d Ha Hb Hc Hd. unfold is_byte in *. unfold be32.
+  assert (Z.shiftl b 16 = b * 65536) as S1 by (rewrite shl_mul by lia; reflexivity).
+  assert (Z.shiftl c 8 = c * 256) as S2 by (rewrite shl_mul by lia; reflexivity).
+  rewrite (lor_shiftl_add a (Z.shiftl b 16) 24) by (change (2 ^ 24) with 16777216; lia).
+  replace (a * 2 ^ 24 + Z.shiftl b 16) with (Z.shiftl (a * 256 + b) 16)
+    by (rewrite S1, shl_mul by lia; change (2 ^ 16) with 65536; change (2 ^ 24) with 16777216; lia).
+  rewrite (lor_shiftl_add (a * 256 + b) (Z.shiftl c 8) 16) by (change (2 ^ 16) with 65536; lia).
+  replace ((a * 256 + b) * 2 ^ 16 + Z.shiftl c 8) with (Z.shiftl ((a * 256 + b) * 256 + c) 8)
+    by (rewrite S2, shl_mul by lia; change (2 ^ 16) with 65536; change (2 ^ 8) with 256; lia).
+  rewrite lor_shiftl_add by (change (2 ^ 8) with 256; lia). reflexivity.
+Qed.
+
+Lemma UINT32DECODE_spec : forall b0 b1 b2 b3, is_byte b0 -> is_byte b1 -> is_byte b2 -> is_byte b3 ->
+  UINT32DECODE_val b0 b1 b2 b3 = be32 b0 b1 b2 b3.
+Proof.
+  intros b0 b1 b2 b3 H0 H1 H2 H3. unfold UINT32DECODE_val.
+  pose proof H0 as H0'. pose proof H1 as H1'. pose proof H2 as H2'. pose proof H3 as H3'.
+  unfold is_byte in H0', H1', H2', H3'.
+  rewrite !land255, !(Z.mod_small _ 256) by lia. rewrite !(Z.mod_small _ 4294967296) by lia.
+  apply lor4_bytes; assumption.
+Qed.
+
+Lemma INT32DECODE_spec : forall b0 b1 b2 b3, is_byte b0 -> is_byte b1 -> is_byte b2 -> is_byte b3 ->
+  sgn32 ((INT32DECODE_val b0 b1 b2 b3) mod 4294967296) = sgn32 (be32 b0 b1 b2 b3).
+Proof.
+  intros b0 b1 b2 b3 H0 H1 H2 H3. unfold INT32DECODE_val.
+  pose proof H0 as H0'. pose proof H1 as H1'. pose proof H2 as H2'. pose proof H3 as H3'.
+  unfold is_byte in H0', H1', H2', H3'.
+  assert (((if Z.land b0 128 =? 0 then 0 else Z.lnot 4294967295) + 2147483648) mod 4294967296 - 2147483648 = 0) as E0.
+  { destruct (Z.land b0 128 =? 0); reflexivity. }
+  rewrite E0, Z.lor_0_l.
+  change (255 mod 4294967296) with 255.
+  rewrite !land255, !(Z.mod_small _ 256) by lia.
+  rewrite !(Z.mod_small (_ + 2147483648) 4294967296) by lia.
+  replace (b1 + 2147483648 - 2147483648) with b1 by lia. replace (b2 + 2147483648 - 2147483648) with b2 by lia.
+  rewrite lor4_bytes by assumption. f_equal. apply Z.mod_small. unfold be32. lia.
 Qed.
